@@ -37,6 +37,7 @@ FIBRE_PARAMS = {
     'dispersion_per_frequency': {'loss_coef': 0.2, 'dispersion_per_frequency': {'value': [1.6e-5, 1.67e-5, 1.8e-5],
                                                                                   'frequency': [191e12, 193e12, 196e12]}},
     'lumped_losses': {'loss_coef': 0.2, 'lumped_losses': [{'position': 60, 'loss': 1.5}]},
+    'operator_pmd_coef': {'loss_coef': 0.2, 'pmd_coef': 4e-15},
 }
 PROBE_F = [191.5e12, 193.0e12, 195.5e12]
 
@@ -101,6 +102,10 @@ def h_split(ctx, max_km, padding, fibre='scalar'):
                   all(abs(a - b) <= 1e-9 * abs(b) for a, b in zip(cd, ref_cd_per_m)),
                   info=dict(info, fibre=fibre, error=err, loss_coef=coef, want=ref_coef))
     ctx.prove('total length preserved', eq(tot, L), info=info)
+    if fibre == 'operator_pmd_coef':
+        for fb in fibers:
+            ctx.prove('span keeps the operator PMD coefficient and still exports it', float(fb.params.pmd_coef) == 4e-15 and
+                      fb.to_json['params'].get('pmd_coef') == 4e-15, info=dict(info, exported=fb.to_json['params'].get('pmd_coef')))
     lat = 0
     for fb in fibers:
         lat = lat + fb.params.latency
@@ -402,6 +407,7 @@ def jobs(tier):
             js.append(dict(name=f'H8a:split_fiber:max150km:padding10:{fibre}', fn='h_split',
                            params=dict(max_km=150, padding=10, fibre=fibre), cost=30, witness_every=1,
                            continue_after_violation=fibre == 'lumped_losses'))
+    # (also registered under C17: a saved design must carry the operator values of the spans it created)
     for layout in ('single', 'spliced', 'two_spans'):
         js.append(dict(name=f'H8c:connectors_and_padding:{layout}', fn='h_padding', params=dict(layout=layout), cost=60))
     js.append(dict(name='H8e:raman_span_in_every_position', fn='h_raman_span', cost=150, witness_every=1,
